@@ -1,6 +1,8 @@
 package core
 
 import (
+	"strings"
+
 	"github.com/jsightapi/jsight-schema-go-library/bytes"
 	"github.com/jsightapi/jsight-schema-go-library/fs"
 
@@ -253,4 +255,137 @@ func VerifH_AllOfOrder() {
 		verifrt.Assert("C10.allof.same-used-types", verifSameSet(u1.Schema.UsedUserTypes.Data(), u2.Schema.UsedUserTypes.Data()))
 	}
 	verifrt.Reach("C10.allof.compared", len(bases[0]) > 0)
+}
+
+// ---- doc-level allOf (real schema library): reference flattening of the type templates ----
+
+func refNextLetter(l string) string {
+	switch l {
+	case "a":
+		return "b"
+	case "b":
+		return "c"
+	}
+	return "a"
+}
+
+type refNode struct {
+	key, token, typ, value, from string
+	children                     []refNode
+}
+
+func refFindType(lines []refLine, letter string) int {
+	for i := range lines {
+		if (lines[i].t == tTypeObj || lines[i].t == tTypeAllOf || lines[i].t == tTypeNested) && lines[i].letter == letter {
+			return i
+		}
+	}
+	return -1
+}
+
+// refTypeChildren: the flattened properties of the type declared by line i (depth-limited: cycles are rejected by the library).
+func refTypeChildren(lines []refLine, i int, depth int) ([]refNode, bool) {
+	if depth > 4 {
+		return nil, false
+	}
+	l := lines[i].letter
+	inherit := func() ([]refNode, bool) {
+		n := refNextLetter(l)
+		j := refFindType(lines, n)
+		if j < 0 {
+			return nil, false
+		}
+		base, ok := refTypeChildren(lines, j, depth+1)
+		if !ok {
+			return nil, false
+		}
+		out := make([]refNode, len(base))
+		for x := range base {
+			out[x] = base[x]
+			out[x].from = "@" + n
+		}
+		return out, true
+	}
+	num := func(key string) refNode { return refNode{key: key, token: "number", typ: "integer", value: "1"} }
+	switch lines[i].t {
+	case tTypeObj:
+		return []refNode{num("k" + l)}, true
+	case tTypeAllOf:
+		inh, ok := inherit()
+		if !ok {
+			return nil, false
+		}
+		inh2, _ := inherit()
+		own := refNode{key: "own" + l, token: "object", typ: "object", children: append(inh2, num("n"+l))}
+		return append(inh, own), true
+	case tTypeNested:
+		inh, ok := inherit()
+		if !ok {
+			return nil, false
+		}
+		return []refNode{{key: "nest" + l, token: "object", typ: "object", children: append(inh, num("m"+l))}}, true
+	}
+	return nil, false
+}
+
+func refRenderNodes(prefix string, nodes []refNode, out *[]string) {
+	for _, n := range nodes {
+		line := prefix + " node " + n.key + " token=" + n.token + " type=" + n.typ + " value=" + n.value
+		if n.from != "" {
+			line += " inheritedFrom=" + n.from
+		}
+		*out = append(*out, line)
+		refRenderNodes(prefix+"/"+n.key, n.children, out)
+	}
+}
+
+// VerifH_AllOfDoc (C12, through the real schema library and the whole
+// pipeline): in every accepted document of K type declarations - plain objects,
+// objects inheriting at the root and in a nested object, objects inheriting
+// only in a nested object - every type lists the inherited properties first, in
+// base order, marked with the direct base, nested objects expanded as well, in
+// every declaration order.
+func VerifH_AllOfDoc() {
+	verifLetters = 3
+	k := verifrt.Bound("K")
+	text, lines := verifDocLines([]int{tTypeAllOf, tTypeNested, tTypeObj}, k, true)
+	verifrt.Note("doc", text)
+	core, je := verifRun(text)
+	if je != nil {
+		verifrt.Reach("C12.doc.rejected", true)
+		return
+	}
+	inherits := false
+	for i := 1; i < len(lines); i++ {
+		l := lines[i].letter
+		kids, ok := refTypeChildren(lines, i, 0)
+		verifrt.Assert("C12.doc.accepted-implies-resolvable-bases", ok)
+		if !ok {
+			return
+		}
+		var want []string
+		root := "type @" + l
+		want = append(want, root+" node <root> token=object type=object value=")
+		refRenderNodes(root+"/<root>", kids, &want)
+		ut, found := core.catalog.UserTypes.Get("@" + l)
+		verifrt.Assert("C12.doc.type-present", found)
+		if !found {
+			return
+		}
+		var got []string
+		for _, ln := range verifSchemaSig(root, &ut.Schema) {
+			if !strings.Contains(ln, " usesType ") {
+				got = append(got, ln)
+			}
+		}
+		verifrt.Note("type", l)
+		verifrt.Assert("C12.doc.node-count", len(got) == len(want))
+		for x := 0; x < len(got) && x < len(want); x++ {
+			verifrt.Assert("C12.doc.node", got[x] == want[x])
+		}
+		if lines[i].t != tTypeObj {
+			inherits = true
+		}
+	}
+	verifrt.Reach("C12.doc.accepted-with-inheritance", inherits)
 }
